@@ -84,12 +84,31 @@ func (a Acc) term() string {
 	return App("Account", N(a.Key), Bool(a.Signer), Bool(a.Prot), Bool(a.Multi), Bool(a.Dist), Bool(a.Fail))
 }
 
+// One recorder serves a whole session (all requests made to one signer instance, possibly
+// concurrently): a signature made for an earlier request and handed out again later keeps the
+// provenance of the call that really made it.
 type recorder struct {
+	mu    sync.Mutex
 	prov  map[string]string // signature bytes -> provenance term
 	calls int
 }
 
-func (r *recorder) note(sig e2types.Signature, term string) {
+// note remembers the call that made sig: for the request in whose context the call was made (BLS
+// signatures are deterministic, so two requests of a session that have the same key sign the same
+// root get the same bytes from different calls) and for the session.
+func (r *recorder) note(ctx context.Context, sig e2types.Signature, term string) {
+	if e, ok := ctx.Value(stepEnvKey{}).(*stepEnv); ok {
+		e.mu.Lock()
+		if e.prov == nil {
+			e.prov = map[string]string{}
+		}
+		if _, ok := e.prov[string(sig.Marshal())]; !ok {
+			e.prov[string(sig.Marshal())] = term
+		}
+		e.mu.Unlock()
+	}
+	r.mu.Lock()
+	defer r.mu.Unlock()
 	r.calls++
 	k := string(sig.Marshal())
 	if _, ok := r.prov[k]; !ok {
@@ -137,53 +156,53 @@ func attTerm(slot, idx uint64, bbr []byte, se uint64, sr []byte, te uint64, tr [
 // --- AccountSigner
 type capS struct{ b *base }
 
-func (c capS) Sign(_ context.Context, data []byte) (e2types.Signature, error) {
+func (c capS) Sign(ctx context.Context, data []byte) (e2types.Signature, error) {
 	if c.b.d.Fail {
 		return nil, errCannotSign
 	}
 	sig := c.b.priv().Sign(data)
-	c.b.rec.note(sig, App("PSign", N(c.b.d.Key), BigN(data)))
+	c.b.rec.note(ctx, sig, App("PSign", N(c.b.d.Key), BigN(data)))
 	return sig, nil
 }
 
 // --- AccountProtectingSigner
 type capP struct{ b *base }
 
-func (c capP) SignGeneric(_ context.Context, data []byte, domain []byte) (e2types.Signature, error) {
+func (c capP) SignGeneric(ctx context.Context, data []byte, domain []byte) (e2types.Signature, error) {
 	if c.b.d.Fail {
 		return nil, errCannotSign
 	}
 	root := specSigningRoot(toChunk(data), toChunk(domain))
 	sig := c.b.priv().Sign(root[:])
-	c.b.rec.note(sig, App("PGeneric", N(c.b.d.Key), BigN(data), BigN(domain)))
+	c.b.rec.note(ctx, sig, App("PGeneric", N(c.b.d.Key), BigN(data), BigN(domain)))
 	return sig, nil
 }
 
-func (c capP) SignBeaconProposal(_ context.Context, slot uint64, proposerIndex uint64, parentRoot []byte, stateRoot []byte, bodyRoot []byte, domain []byte) (e2types.Signature, error) {
+func (c capP) SignBeaconProposal(ctx context.Context, slot uint64, proposerIndex uint64, parentRoot []byte, stateRoot []byte, bodyRoot []byte, domain []byte) (e2types.Signature, error) {
 	if c.b.d.Fail {
 		return nil, errCannotSign
 	}
 	root := specSigningRoot(specHeader(slot, proposerIndex, toChunk(parentRoot), toChunk(stateRoot), toChunk(bodyRoot)), toChunk(domain))
 	sig := c.b.priv().Sign(root[:])
-	c.b.rec.note(sig, App("PProp", N(c.b.d.Key),
+	c.b.rec.note(ctx, sig, App("PProp", N(c.b.d.Key),
 		App("BlockHeader", N(slot), N(proposerIndex), BigN(parentRoot), BigN(stateRoot), BigN(bodyRoot)), BigN(domain)))
 	return sig, nil
 }
 
-func (c capP) SignBeaconAttestation(_ context.Context, slot uint64, committeeIndex uint64, blockRoot []byte, sourceEpoch uint64, sourceRoot []byte, targetEpoch uint64, targetRoot []byte, domain []byte) (e2types.Signature, error) {
+func (c capP) SignBeaconAttestation(ctx context.Context, slot uint64, committeeIndex uint64, blockRoot []byte, sourceEpoch uint64, sourceRoot []byte, targetEpoch uint64, targetRoot []byte, domain []byte) (e2types.Signature, error) {
 	if c.b.d.Fail {
 		return nil, errCannotSign
 	}
 	root := specSigningRoot(specAttData(slot, committeeIndex, toChunk(blockRoot), sourceEpoch, toChunk(sourceRoot), targetEpoch, toChunk(targetRoot)), toChunk(domain))
 	sig := c.b.priv().Sign(root[:])
-	c.b.rec.note(sig, App("PAtt", N(c.b.d.Key), attTerm(slot, committeeIndex, blockRoot, sourceEpoch, sourceRoot, targetEpoch, targetRoot), BigN(domain)))
+	c.b.rec.note(ctx, sig, App("PAtt", N(c.b.d.Key), attTerm(slot, committeeIndex, blockRoot, sourceEpoch, sourceRoot, targetEpoch, targetRoot), BigN(domain)))
 	return sig, nil
 }
 
 // --- AccountProtectingMultiSigner
 type capM struct{ b *base }
 
-func (c capM) SignBeaconAttestations(_ context.Context, slot uint64, accounts []e2wtypes.Account, committeeIndices []uint64, blockRoot []byte, sourceEpoch uint64, sourceRoot []byte, targetEpoch uint64, targetRoot []byte, domain []byte) ([]e2types.Signature, error) {
+func (c capM) SignBeaconAttestations(ctx context.Context, slot uint64, accounts []e2wtypes.Account, committeeIndices []uint64, blockRoot []byte, sourceEpoch uint64, sourceRoot []byte, targetEpoch uint64, targetRoot []byte, domain []byte) ([]e2types.Signature, error) {
 	if len(accounts) != len(committeeIndices) {
 		return nil, errors.New("mock: accounts and committee indices differ in number")
 	}
@@ -195,13 +214,13 @@ func (c capM) SignBeaconAttestations(_ context.Context, slot uint64, accounts []
 		}
 		root := specSigningRoot(specAttData(slot, committeeIndices[i], toChunk(blockRoot), sourceEpoch, toChunk(sourceRoot), targetEpoch, toChunk(targetRoot)), toChunk(domain))
 		sig := b.priv().Sign(root[:])
-		c.b.rec.note(sig, App("PMultiAtt", N(c.b.d.Key), N(b.d.Key), attTerm(slot, committeeIndices[i], blockRoot, sourceEpoch, sourceRoot, targetEpoch, targetRoot), BigN(domain)))
+		c.b.rec.note(ctx, sig, App("PMultiAtt", N(c.b.d.Key), N(b.d.Key), attTerm(slot, committeeIndices[i], blockRoot, sourceEpoch, sourceRoot, targetEpoch, targetRoot), BigN(domain)))
 		res[i] = sig
 	}
 	return res, nil
 }
 
-func (c capM) SignGenericMulti(_ context.Context, accounts []e2wtypes.Account, data [][]byte, domain []byte) ([]e2types.Signature, error) {
+func (c capM) SignGenericMulti(ctx context.Context, accounts []e2wtypes.Account, data [][]byte, domain []byte) ([]e2types.Signature, error) {
 	if len(accounts) != len(data) {
 		return nil, errors.New("mock: accounts and data differ in number")
 	}
@@ -213,7 +232,7 @@ func (c capM) SignGenericMulti(_ context.Context, accounts []e2wtypes.Account, d
 		}
 		root := specSigningRoot(toChunk(data[i]), toChunk(domain))
 		sig := b.priv().Sign(root[:])
-		c.b.rec.note(sig, App("PMultiGeneric", N(c.b.d.Key), N(b.d.Key), BigN(data[i]), BigN(domain)))
+		c.b.rec.note(ctx, sig, App("PMultiGeneric", N(c.b.d.Key), N(b.d.Key), BigN(data[i]), BigN(domain)))
 		res[i] = sig
 	}
 	return res, nil
@@ -388,10 +407,56 @@ func (c ChainDesc) versionAt(epoch uint64) [4]byte {
 	return version4(v)
 }
 
+// The domain provider lives as long as the signer service.  What is particular to one request of
+// a session (does the node answer at all; which calls the request made) travels in the request's
+// context as a *stepEnv, so that requests made concurrently on one service do not share it.
 type domainProvider struct {
 	chain ChainDesc
+	def   stepEnv // requests made without a stepEnv in their context
+}
+
+type stepEnv struct {
+	mu    sync.Mutex
 	fail  bool
 	calls []string
+	prov  map[string]string // signature bytes -> provenance term, for the calls made for this request
+}
+
+// provenance of a signature returned for the request of e: the call made for this request that
+// produced these bytes; failing that, a call made for another request of the session (a signature
+// handed out again); failing that, nobody's.
+func (r *recorder) provenance(e *stepEnv, sig []byte) string {
+	e.mu.Lock()
+	term, ok := e.prov[string(sig)]
+	e.mu.Unlock()
+	if ok {
+		return term
+	}
+	r.mu.Lock()
+	term, ok = r.prov[string(sig)]
+	r.mu.Unlock()
+	if ok {
+		return term
+	}
+	return "PUnknown"
+}
+
+type stepEnvKey struct{}
+
+func withStepEnv(ctx context.Context, e *stepEnv) context.Context {
+	return context.WithValue(ctx, stepEnvKey{}, e)
+}
+
+// note records the call and says whether the provider is to fail for this request.
+func (p *domainProvider) note(ctx context.Context, call string) bool {
+	e, ok := ctx.Value(stepEnvKey{}).(*stepEnv)
+	if !ok {
+		e = &p.def
+	}
+	e.mu.Lock()
+	defer e.mu.Unlock()
+	e.calls = append(e.calls, call)
+	return e.fail
 }
 
 var builderDomainType = phase0.DomainType{0, 0, 0, 1}
@@ -404,17 +469,15 @@ func (p *domainProvider) gvrFor(domainType phase0.DomainType) chunk {
 	return toChunk(unhex(p.chain.GVR))
 }
 
-func (p *domainProvider) Domain(_ context.Context, domainType phase0.DomainType, epoch phase0.Epoch) (phase0.Domain, error) {
-	p.calls = append(p.calls, fmt.Sprintf("domain %x @%d", domainType[:], uint64(epoch)))
-	if p.fail {
+func (p *domainProvider) Domain(ctx context.Context, domainType phase0.DomainType, epoch phase0.Epoch) (phase0.Domain, error) {
+	if p.note(ctx, fmt.Sprintf("domain %x @%d", domainType[:], uint64(epoch))) {
 		return phase0.Domain{}, errors.New("mock domain provider fails")
 	}
 	return phase0.Domain(specComputeDomain(domainType, p.chain.versionAt(uint64(epoch)), p.gvrFor(domainType))), nil
 }
 
-func (p *domainProvider) GenesisDomain(_ context.Context, domainType phase0.DomainType) (phase0.Domain, error) {
-	p.calls = append(p.calls, fmt.Sprintf("genesis-domain %x", domainType[:]))
-	if p.fail {
+func (p *domainProvider) GenesisDomain(ctx context.Context, domainType phase0.DomainType) (phase0.Domain, error) {
+	if p.note(ctx, fmt.Sprintf("genesis-domain %x", domainType[:])) {
 		return phase0.Domain{}, errors.New("mock domain provider fails")
 	}
 	return phase0.Domain(specComputeDomain(domainType, version4(p.chain.GenesisVersion), p.gvrFor(domainType))), nil
